@@ -23,8 +23,8 @@ NOAVX = {"SODIUM_VERIF_CPUID1_ECX_CLEAR": "0x10000000", "SODIUM_VERIF_CPUID7_EBX
 SSE2ONLY = {"SODIUM_VERIF_CPUID1_ECX_CLEAR": "0x12080201", "SODIUM_VERIF_CPUID7_EBX_CLEAR": "0x10020"}
 CFGS = [("native", NO512, "avx2"), ("native", NOAVX2, "avx"), ("native", NOAVX, "sse41-aesni"), ("native", SSE2ONLY, "sse2"),
         ("noasm", NO512, "noasm"), ("no128", NO512, "no128"), ("portable", {}, "portable")]
-LENS_QUICK = [0, 1, 15, 16, 17, 31, 32, 33, 63, 64, 65, 127, 128, 129, 255, 256, 257, 1000]
-LENS_THOROUGH = sorted(set(list(range(0, 400)) + [511, 512, 513, 767, 768, 769, 1000, 1023, 1024, 1025, 2047, 2048, 2049, 4095, 4096, 4097]))
+LENS_QUICK = [0, 1, 15, 16, 17, 31, 32, 33, 63, 64, 65, 127, 128, 129, 255, 256, 257, 1000, 65537, 1048579]     # the last two: bulk paths for large inputs
+LENS_THOROUGH = sorted(set(list(range(0, 400)) + [511, 512, 513, 767, 768, 769, 1000, 1023, 1024, 1025, 2047, 2048, 2049, 4095, 4096, 4097, 65535, 65536, 65537, 1048575, 1048576, 1048579]))
 
 
 def vg(R, exe, env, out_log, seed, filt, lens, timeout=3000):
@@ -61,14 +61,15 @@ def run(R):
     def one(c):
         variant, env, name = c
         log = R.path("vg", name + ".log")
-        pr = vg(R, exes[variant], env, log, R.seed, "all", lens)
+        mylens = lens if (thorough or name in ("avx2", "sse2")) else [x for x in lens if x < 100000]      # quick: 1 MiB inputs in two configurations
+        pr = vg(R, exes[variant], env, log, R.seed, "all", mylens)
         nd = R.path("vg", name + ".ndjson")
         evs = vglog2ndjson.convert(log, nd)
-        return c, pr, log, nd, evs
+        return c, pr, log, nd, evs, mylens
     with ThreadPoolExecutor(max_workers=len(CFGS)) as ex:
         runs = list(ex.map(one, CFGS))
-    for (variant, env, name), pr, log, nd, evs in runs:
-        if evs and evs[0].get("e") == "begin" and evs[0].get("lens") != list(lens):
+    for (variant, env, name), pr, log, nd, evs, mylens in runs:
+        if evs and evs[0].get("e") == "begin" and evs[0].get("lens") != list(mylens):
             raise vlib.MachineryError("taint driver did not run the requested lengths in configuration %s" % name)
         if pr.returncode != 0 or not evs or evs[-1].get("e") != "done":
             tail = open(log, errors="replace").read()[-1500:]
@@ -77,10 +78,10 @@ def run(R):
             # the driver died: an invalid access under memcheck or a crash in the library
             R.violation("taint driver did not finish under configuration %s (rc=%d): %s" % (name, pr.returncode, tail[-400:].replace("\n", " | ")),
                         {"cfg": name, "log_tail": tail}, name="crash")
-    res = R.tlc_shards("sys/TraceConstTime.tla", "TraceConstTime.cfg", [{"TRACE": nd} for _, _, _, nd, _ in runs], timeout=1800, heap="3g")
+    res = R.tlc_shards("sys/TraceConstTime.tla", "TraceConstTime.cfg", [{"TRACE": r[3]} for r in runs], timeout=1800, heap="3g")
     nops = nrep = 0
     allowed = {}
-    for ((variant, env, name), pr, log, nd, evs), tr in zip(runs, res):
+    for ((variant, env, name), pr, log, nd, evs, _ml), tr in zip(runs, res):
         nops += sum(1 for e in evs if e["e"] == "op")
         reps = [e for e in evs if e["e"] == "report"]
         nrep += len(reps)
